@@ -32,6 +32,7 @@ type Config struct {
 	SchedChoice   bool
 	MapOrderChoice bool
 	RaceMode      bool // record an event skeleton and run the order-variable race analysis on completed paths
+	ConcreteMem   bool // pkg/mem sizes are a fixed 8 GiB instead of nondeterministic values
 	HashIDs       bool // meow on symbolic input: concrete identifiers decided by forking on input equality
 	MaxConcretize int
 	AllocBudget   int64 // bytes; 0 = no allocation check
